@@ -170,6 +170,16 @@ def check(rep, ctx):
                       message=f"{len(seen_emit_sets)} emission patterns reachable, expected {2 ** len(all_tags)} "
                               f"(each tagged field independently elided or emitted)", instance=f"{key}|patterns",
                       **W.codec_loc(wr["codec"]))
+    from .. import scan as _scan2
+    R_SL = rep.rule("C02-slices", "no payload slice of the form x[-r:] with a remainder r that may be zero (for r == 0 that is the whole payload, "
+                    "written a second time after its full chunks)", floor=0,
+                    necessary_because="a value whose size is an exact multiple of the chunk size is followed by a copy of itself: the length "
+                                      "prefix says N, 2N bytes follow")
+    for o in _scan2.minus_zero_slices(ctx, ["kio.serial.writers", "kio.serial._serialize", "kio.records.writers"]):
+        rep.check(R_SL, False, construct=o["function"], stmt=o["stmt"],
+                  message=f"`{o['stmt']}`: {o['name']} is a remainder and may be 0, and x[-0:] is all of x -- the tail chunk repeats the whole value",
+                  file=o["file"], line=o["line"])
+    rep.count(R_SL, 1, instance="scan")
     W.finish(rep)
     rep.extra.update(classes=len(S.classes), tagged_section_paths=n_tagged_paths, engine_stats=W.bundle.get("stats"))
     rep.trusted_base += ["struct.pack/unpack format semantics (calcsize, byte order, two's complement)",
